@@ -400,14 +400,14 @@ def r13f(model, ctx):
     ca = find_chain(fa)
     need(ca is not None, "AsyncFFSynchronizer.elaborate: register chain not recognised")
     kw = {k.arg: unparse(k.value) for k in ca.ctor.keywords}
-    ok = kw.get("init") == "1" and ca.count == "range(self._stages)"
+    ok = kw.get("init") == "1" and ca.count == "range(self._stages)" and ca.link == "prev"
     ctx.check(ok, R, "AsyncFFSynchronizer:flops", "self._stages flops, all powering up asserted",
               "AsyncFFSynchronizer must build self._stages flops that power up at 1 (output asserted until released synchronously)",
               f"{CDC}:{fa.lineno}")
     ff = model.func_view(f"{CDC}::FFSynchronizer.elaborate", depth=3)
     cf = find_chain(ff)
     need(cf is not None, "FFSynchronizer.elaborate: register chain not recognised")
-    ok = cf.count == "range(self._stages)" and cf.src == "self.i" and cf.domain == "self._o_domain" and cf.out == ("LAST", "'comb'")
+    ok = cf.count == "range(self._stages)" and cf.src == "self.i" and cf.link == "prev" and cf.domain == "self._o_domain" and cf.out == ("LAST", "'comb'")
     ctx.check(ok, R, "FFSynchronizer:chain", "self._stages flops chained i -> flops[0] -> .. -> flops[-1] -> o in o_domain",
               "FFSynchronizer must chain self._stages flops in the output domain and drive o from the last one", f"{CDC}:{ff.lineno}")
 
